@@ -53,6 +53,17 @@ func verifEventLoop(kind string, op *OutPt) {
 	*verifRec = append(*verifRec, VerifEvent{Kind: kind, Pts: p})
 }
 
+// verifEventPaths records one event per path (used for the raw offset curves that
+// ClipperOffset hands to its final union).
+func verifEventPaths(kind string, paths Paths64) {
+	if verifRec == nil {
+		return
+	}
+	for _, p := range paths {
+		*verifRec = append(*verifRec, VerifEvent{Kind: kind, Pts: append(Path64(nil), p...)})
+	}
+}
+
 func verifLastPt(ae *Active) Point64 {
 	if op := getLastOp(ae); op != nil {
 		return op.pt
